@@ -48,7 +48,7 @@ def b01 (b : Bool) : String := if b then "1" else "0"
 /-- Run the hook around an outcome; a token is consumed by every `OnDispatchStart` entry. -/
 def finishCall (st : St) (mode : HookMode) (o : CallOutcome) (extra : String) : St × String :=
   let ev := dispatch (some mode) st.nextTok o
-  let st' := if o.dispatched then { st with nextTok := st.nextTok + 1 } else st
+  let st' := { st with nextTok := nextToken st.nextTok o }
   (st', s!"ev={showEvents ev} err={b01 o.respError}{extra}")
 
 def findLabel (ls : List Label) (n : String) : Option Label := ls.find? (·.name == n)
